@@ -95,6 +95,7 @@ class AccessMixin:
         if fc.spec:
             return [Res(p, u)]
         self.policy_flag(u, attr)
+        self.policy_object(p, v, 'read .' + attr, node)
         rs = []
         unset = (u.is_('unset'))
         if feasible(p, unset):
@@ -479,6 +480,8 @@ class AccessMixin:
         if isinstance(v, VConstList):
             raise Unsupported('storing a list of non-storable element shape into .%s' % attr)
         self.policy_escape(p, v, 'stored into .' + attr)
+        if isinstance(o, VRef):
+            self.policy_object(p, o, 'write .' + attr)
         store_value(p, attr, o.t, v)
 
     def store_index(self, p, target, b, i, v, fc):
